@@ -331,6 +331,27 @@ def run(R):
                     if rc == 101 or "panicked at" in err or rc not in OK_EXITS:
                         fails.append({"why": f"command exited with status {rc}" + (": " + err[err.find("panicked at"):][:200] if "panicked at" in err else ""),
                                       "args": args, "tree": cli.tree_json(small_na), "history": [args], "build": "debug"})
+    # a workspace configuration file (.renamify/config.toml) in every state a hand edit or a crash can leave it in
+    configs = [b"", b"garbage [[[ = \n", b"[defaults]\npreview_format = \"bogus\"\n", "atomic = [\"\u00dcberbau\", \"\", \"old_name\", \"\u0130x\"]\n".encode(),
+               b"[defaults]\nunrestricted_level = 255\nuse_color = true\nrename_files = false\n", b"\xff\xfe\x00", b"[defaults]\npreview_format = 7\n",
+               b"atomic = \"old_name\"\n", b"[defaults]\npreview_format = \"none\"\n[unknown]\nx = 1\n"]
+    cfg_tree = [{"p": "a.txt", "k": "f", "c": "old_name OldName \u00dcberbau \u0130x\n".encode(), "m": 0o644}, {"p": "old_name_dir", "k": "d", "m": 0o755}]
+    for ci, cfg in enumerate(configs):
+        for cmd in (["plan", "old_name", "new_name", "--dry-run"], ["rename", "\u00dcberbau", "Neubau", "--dry-run"], ["search", "\u0130x"],
+                    ["replace", "old_name", "new_name", "--dry-run"], ["rename", "old_name", "new_name"], ["status"], ["history"], ["undo", "latest"]):
+            with cli.Sandbox(cfg_tree) as sb:
+                (sb.root / ".renamify").mkdir(exist_ok=True)
+                (sb.root / ".renamify" / "config.toml").write_bytes(cfg)
+                args = ["--no-auto-init", "-y"] + cmd
+                rc, o, e = sb.run(args, timeout=60)
+                stats["cli_runs"] += 1
+                stats["config_file_runs"] = stats.get("config_file_runs", 0) + 1
+                stats["exit_codes"][rc] = stats["exit_codes"].get(rc, 0) + 1
+                R.case(("config", ci, tuple(args)), nontrivial=True)
+                err = e.decode("utf-8", "replace")
+                if rc == 101 or "panicked at" in err or rc not in OK_EXITS:
+                    fails.append({"why": f"command exited with status {rc} with .renamify/config.toml = {cfg[:60]!r}" + (": " + err[err.find("panicked at"):][:200] if "panicked at" in err else ""),
+                                  "args": args, "tree": cli.tree_json(cfg_tree), "history": [args], "build": "debug", "config": cfg.decode("latin1")})
     # a working directory, a search root and entries whose names are not valid UTF-8 (legal Unix file names), every planning and
     # applying command, with and without --output json
     with cli.Sandbox([{"p": "a.txt", "k": "f", "c": b"old_name\n", "m": 0o644}]) as sb:
